@@ -193,7 +193,7 @@ func runP2(c *p2Case, r *core.Rec, cl p2Clauses) *p2Run {
 	if c.FailWrite == 0 && c.PriorGen == 0 && !c.RecDamaged {
 		moved := c.DiskTwin
 		for _, d := range c.Dmg {
-			if d.Op == "swap" || d.Op == "copy" {
+			if d.Op == "swap" || d.Op == "copy" || d.Op == "badrec" {
 				moved = true
 			}
 		}
@@ -527,6 +527,7 @@ func stagedTwinP2(s *scen.P2Set, start *envfs.FS, o *scen.P2Obs, c *p2Case, r *c
 	}
 	var counts par2.ShardCounts
 	var lerr, rerr error
+	retriedNil := false
 	pi := core.Catch(func() {
 		d, e := par2.VerifNewDecoder(start, par2.DoNothingDecoderDelegate{}, s.Index, g)
 		if e != nil {
@@ -540,7 +541,12 @@ func stagedTwinP2(s *scen.P2Set, start *envfs.FS, o *scen.P2Obs, c *p2Case, r *c
 			return
 		}
 		counts = d.ShardCounts()
-		_, rerr = d.Repair(c.DoubleCheck)
+		if _, rerr = d.Repair(c.DoubleCheck); rerr != nil {
+			// a refused Repair, asked again on the same object: a nil answer now has to be as true as any other
+			if _, again := d.Repair(c.DoubleCheck); again == nil {
+				retriedNil = true
+			}
+		}
 	})
 	r.AddTransitions(1)
 	r.Count("staged_twins", 1)
@@ -557,6 +563,12 @@ func stagedTwinP2(s *scen.P2Set, start *envfs.FS, o *scen.P2Obs, c *p2Case, r *c
 	}
 	if counts != o.Counts {
 		r.Violatef("staged-run-differs-from-wrappers:counts", "recovery data loaded first: %+v; Verify: %+v", counts, o.Counts)
+	}
+	if retriedNil {
+		if !s.AllOriginal(start.Snapshot()) {
+			r.Violatef("staged-retry-nil-but-files-differ", "Repair refused (%v); asked again on the same object it returned nil, but the protected files are not all original", rerr)
+		}
+		return
 	}
 	if (rerr == nil) != (o.RepairErr == nil) {
 		r.Violatef("staged-run-differs-from-wrappers:repair-error", "recovery data loaded first: Repair %v; wrapper: %v", rerr, o.RepairErr)
